@@ -8,6 +8,7 @@ mod sparseset;
 mod plevel;
 mod plevel_ext;
 mod lp;
+mod limits;
 
 pub fn parse_list(tok: &str) -> Vec<i32> {
     if tok == "-" || tok.is_empty() {
@@ -35,6 +36,7 @@ fn main() {
         "ctx" => plevel::run_ctx,
         "view" => plevel::run_view,
         "lp" => lp::run_case,
+        "limits" => limits::run_case,
         _ => {
             eprintln!("unknown sub-command {}", sub);
             std::process::exit(2);
